@@ -147,22 +147,38 @@ theorem backtrack_model :
       Backtrack.isRequired p c s ≠ Backtrack.isRequired p c s') :=
   ⟨Backtrack.leaf_assigning_fresh, fun p c h s => Backtrack.allNever_untouched p c h s, Backtrack.composite_can_be_stale⟩
 
-/-- the remaining not-reset slots a simulation is ASSUMED not to depend on at its start (hypothesis `hdep` below; the
-rerun oracle on the real code is what checks it): `Rule._name` — its readers in the run-time closures are the INP rule
-label, `__repr__` and `to_dict` (`Gen.ruleNameReaders`): a label, no hydraulics; `WaterNetworkModel._inpfile` — the cached
-INP writer of the EPANET path, never loaded by WNTRSimulator; EpanetSimulator passes `units=options.hydraulic.inpfile_units`,
-which may be `None`, in which case the cached writer's units are reused (`Gen.inpfileUnitsAlwaysPassed = false`), so this
-one cannot be discharged from the source. -/
-def assumedIgnorable : List Slot :=
-  [⟨"Rule", "_name"⟩, ⟨"WaterNetworkModel", "_inpfile"⟩]
+/-- **rule_name_facts (decided on the regenerated tables).** What HEAD guarantees about `Rule._name`, read off
+`InpFile._write_rules` and `wntr/network/io.py:to_dict` by ast: the only assignment gives a NAMELESS rule (`name == ''`)
+exactly its registry key, untransformed; and `to_dict` already reports that key for an empty name. So `to_dict` — a reader
+of `Rule._name` — shows the same dictionary before and after (checked on every run by the EpanetSimulator oracle, incl.
+nameless rules under long keys such as `<pump>_outage`); a writer that truncates or reformats the key flips
+`ruleNameAssignedIsRegistryKey`. -/
+theorem rule_name_facts :
+    ruleNameAssignedIsRegistryKey = true ∧ toDictSubstitutesKeyForEmptyName = true ∧ ruleNameAssignedValue = "text" ∧
+    ruleNameReaders.map (·.2) = ["inp-label", "logging/str", "dict key", "inp-label"] := by
+  refine ⟨?_, ?_, ?_, ?_⟩ <;> decide +kernel
 
-theorem assumedIgnorable_evidence :
-    ruleNameReaders.map (·.2) = ["inp-label", "logging/str", "dict key", "inp-label"] ∧
-    inpfileUnitsAlwaysPassed = false := by
-  constructor <;> decide +kernel
+/-- `Rule._name`: written by the EPANET path, not reset; by `rule_name_facts` the value written is the key every reader
+(`to_dict`, the INP label, `__repr__`) already used for the nameless rule — no result or dictionary depends on whether the
+assignment has happened -/
+def ruleNameIgnorable : List Slot := [⟨"Rule", "_name"⟩]
+
+/-- in-place mutation (`.sort()`, `.append`, subscript stores, … on containers rooted at model objects inside the
+simulator closure, `Gen.mutatedInPlace`) touches no slot `to_dict` reads: on HEAD only the observer lists of control
+actions. **Decided on the regenerated tables.** -/
+theorem in_place_mutation_invisible_to_toDict : overlap mutatedInPlace toDictReads = [] := by decide +kernel
+
+/-- the remaining not-reset slot a simulation is ASSUMED not to depend on at its start (hypothesis `hdep` below; the
+rerun oracle on the real code is what checks it): `WaterNetworkModel._inpfile` — the cached INP writer of the EPANET path,
+never loaded by WNTRSimulator; EpanetSimulator passes `units=options.hydraulic.inpfile_units`, which may be `None`, in
+which case the cached writer's units are reused (`Gen.inpfileUnitsAlwaysPassed = false`), so this one cannot be
+discharged from the source. -/
+def assumedIgnorable : List Slot := [⟨"WaterNetworkModel", "_inpfile"⟩]
+
+theorem assumedIgnorable_evidence : inpfileUnitsAlwaysPassed = false := by decide +kernel
 
 /-- slots whose value at the start of a run does not matter -/
-def ignorable : List Slot := runInitialises ++ checkedIgnorable ++ backtrackIgnorable ++ assumedIgnorable
+def ignorable : List Slot := runInitialises ++ checkedIgnorable ++ backtrackIgnorable ++ ruleNameIgnorable ++ assumedIgnorable
 
 /-- slots a run writes that survive `reset_initial_values` and matter -/
 def notRestored : List Slot := missing written (resetAssigns ++ ignorable)
